@@ -457,6 +457,34 @@ def _filter_shard(arg):
                 st.violation("C17/bip158/no-match-for-member", dict(case, script=s.hex()), False, True)
         if not f.match_any(sorted(els, reverse=True)):
             st.violation("C17/bip158/match_any-misses", case, False, True)
+        # match_any over watch lists: every subset (<= 4) of a pool of absent scripts, alone and with each member added,
+        # in both orders; the reference answer is membership of the hashed set (a false positive is a hash collision,
+        # predicted by the model, never excused; a false negative is never right)
+        F = len(hashed) * 784931
+        absent = [b"\x00\x14" + bytes([j]) * 20 for j in range(1, 9)]
+        hset = set(hashed)
+
+        members = sorted(els)[:3]
+        k0_, k1_ = int.from_bytes(bh_internal[:8], "little"), int.from_bytes(bh_internal[8:16], "little")
+        verdict = {sc: ((sip_ref(k0_, k1_, sc) * F >> 64) in hset if F else False) for sc in absent + members}
+
+        def ref_in(sc):
+            return verdict[sc]
+
+        for r in range(0, 5):
+            for sub in itertools.combinations(absent, r):
+                for extra in [None] + members:
+                    for q in ([*sub] + ([extra] if extra else []), ([extra] if extra else []) + [*sub][::-1]):
+                        st.evals += 1
+                        if extra is not None and r >= 2:
+                            st.nontrivial += 1
+                        exp = any(ref_in(x) for x in q)
+                        try:
+                            gotm = f.match_any(q)
+                        except Exception as e:  # noqa: BLE001
+                            gotm = "raised " + type(e).__name__
+                        if gotm is not exp:
+                            st.violation("C17/bip158/match_any-differs-from-membership", dict(case, absent=r, member=extra.hex() if extra else None), gotm, exp)
         g = BasicBlockFilter.parse(got, blk.header.hash)
         if g.serialize() != got or g.element_hashes != hashed:
             st.violation("C17/bip158/parse-roundtrip", case, g.serialize().hex(), got.hex())
